@@ -1068,6 +1068,72 @@ theorem dispatch_ok (table : List (List Nat)) (hnd : table.Nodup) (hlen : ∀ d 
   simp only [dispatch, ixData, if_neg hl, ht, hd]
   rw [hf, if_pos hi]
 
+/-! ## CPI metas do not depend on the runtime flags of the supplied infos -/
+
+theorem reflag_spec (g : Acct → Bool × Bool) : ∀ s sv, svTyped s sv = true →
+    svTyped s (reflag g s sv) = true ∧ toClient s (reflag g s sv) = toClient s sv := by
+  intro s
+  induction s using SetShape.ind with
+  | hsingle sg wr fk cs => intro sv h; cases sv <;> simp [svTyped] at h; simp [reflag, svTyped, toClient]
+  | hopt s ih =>
+    intro sv h
+    cases sv <;> simp [svTyped] at h
+    · simp [reflag, svTyped, toClient]
+    · have := ih _ h
+      simp [reflag, svTyped, toClient, this.1, this.2]
+  | hvec s ih =>
+    intro sv h
+    cases sv <;> simp [svTyped] at h
+    rename_i vs
+    refine ⟨?_, ?_⟩
+    · simp only [reflag, svTyped, List.all_map, List.all_eq_true]
+      exact fun x hx => (ih x (h x hx)).1
+    · simp only [reflag, toClient, List.map_map]
+      congr 1
+      exact List.map_congr_left (fun x hx => (ih x (h x hx)).2)
+  | harr n s ih =>
+    intro sv h
+    cases sv <;> simp [svTyped] at h
+    rename_i vs
+    refine ⟨?_, ?_⟩
+    · simp only [reflag, svTyped, List.length_map, List.all_map, Bool.and_eq_true, beq_iff_eq, List.all_eq_true]
+      exact ⟨h.1, fun x hx => (ih x (h.2 x hx)).1⟩
+    · simp only [reflag, toClient, List.map_map]
+      congr 1
+      exact List.map_congr_left (fun x hx => (ih x (h.2 x hx)).2)
+  | hboxed s ih =>
+    intro sv h
+    have := ih sv (by simpa [svTyped] using h)
+    simpa [reflag, svTyped, toClient] using this
+  | hstruct fs ih =>
+    intro sv h
+    cases sv <;> simp [svTyped] at h
+    rename_i vs
+    simp only [reflag, svTyped, toClient]
+    suffices hs : svTypedFields fs (reflagFields g fs vs) = true ∧
+        toClientFields fs (reflagFields g fs vs) = toClientFields fs vs by
+      exact ⟨hs.1, by rw [hs.2]⟩
+    induction fs generalizing vs with
+    | nil => cases vs <;> simp [svTypedFields] at h; simp [reflagFields, svTypedFields, toClientFields]
+    | cons f fs ihl =>
+      cases vs with
+      | nil => simp [svTypedFields] at h
+      | cons v vs =>
+        simp only [svTypedFields, Bool.and_eq_true] at h
+        have h1 := ih f List.mem_cons_self v h.1
+        have h2 := ihl (fun s hs => ih s (List.mem_cons_of_mem _ hs)) vs h.2
+        simp [reflagFields, svTypedFields, toClientFields, h1.1, h1.2, h2.1, h2.2]
+  | hrest s ih =>
+    intro sv h
+    cases sv <;> simp [svTyped] at h
+    rename_i vs
+    refine ⟨?_, ?_⟩
+    · simp only [reflag, svTyped, List.all_map, List.all_eq_true]
+      exact fun x hx => (ih x (h x hx)).1
+    · simp only [reflag, toClient, List.map_map]
+      congr 1
+      exact List.map_congr_left (fun x hx => (ih x (h x hx)).2)
+
 /-! ## `split_to_args` -/
 
 theorem accessors_select (ph : Phase) : ∀ (anns : List (List Phase)) (vals pre : List Nat),
